@@ -18,7 +18,9 @@ func c05Gen(r *rand.Rand, n int, tier string) []string {
 		tick := func() int64 { clock += int64(1 + r.Intn(3)); return clock }
 		nt := func() string { return fmt.Sprintf("%s,-,0,%s,%d,0,-,-", hxs("nodeType"), hxs("device"), tick()) }
 		tomb := func(v float64) string { return fmt.Sprintf("%s,-,%s,-,%d,0,-,-", hxs("tombstone"), valStr(v), tick()) }
-		val := func(v string) string { return fmt.Sprintf("%s,%s,%s,-,%d,0,-,-", hxs("value"), hxs(pick(r, []string{"", "0", "1"})), v, tick()) }
+		val := func(v string) string {
+			return fmt.Sprintf("%s,%s,%s,-,%d,0,-,-", hxs("value"), hxs(pick(r, []string{"", "0", "1"})), v, tick())
+		}
 		var ops []string
 		// chain R -> a -> b -> c, plus d under a; sometimes tombstone an inner edge
 		chain := []string{"R", "a", "b", "c"}
